@@ -55,6 +55,28 @@ class XCtx(Ctx):
             return native(q)
         return self.repo.get(q)
 
+    def abstract_constant(self, modname, const, name=None, positive=True, upper=None):
+        """replace a module-level numeric threshold by a symbolic constant (assumed > 0): what is proved then holds for
+        every positive value of the threshold, in particular for the value in the source (checked to be positive)."""
+        if self.mode != "sym":
+            return native(modname + "." + const)
+        mod = self.repo.module(modname)
+        orig = self.repo.__dict__.setdefault("_orig_consts", {})
+        if (modname, const) not in orig:
+            orig[(modname, const)] = getattr(mod, const)
+        cur = orig[(modname, const)]
+        if positive and not (cur > 0):
+            raise ContractError("%s.%s = %r is not positive" % (modname, const, cur))
+        s = self.real(name or ("const_" + const))
+        if positive:
+            self.assume(s > 0, "const:%s>0" % const)
+        if upper is not None:
+            if not (cur <= upper):
+                raise ContractError("%s.%s = %r exceeds %r" % (modname, const, cur, upper))
+            self.assume(s <= upper, "const:%s<=%g" % (const, upper))
+        setattr(mod, const, s)
+        return s
+
     def call(self, f, *args, **kw):
         try:
             return f(*args, **kw)
@@ -169,18 +191,31 @@ def serialise(c, res):
             recs.append(rec)
             continue
         seen[key] = len(recs)
-        coi = solve.cone_of_influence(hyps, goal)
+        pruned = [h for _, h in solve.prune_defs(o.hyps, goal)]
+        coi = solve.cone_of_influence(pruned, goal)
         smt = {"full": full}
         if len(coi) < len(hyps):
             smt["coi"] = solve.to_smt2(coi, goal)
         else:
             smt["coi_same"] = True
+        try:
+            lh, lg = solve.linear_abstraction(coi, goal)
+            smt["lin"] = solve.to_smt2(lh, lg)
+        except Exception:
+            pass
         near = solve.near_hyps(hyps, goal)
         if len(near) < len(coi):
             smt["near"] = solve.to_smt2(near, goal)
         if o.meta.get("clear_goal") is not None:
-            base = coi if len(coi) < len(hyps) else hyps
-            smt["clear"] = solve.to_smt2(base, o.meta["clear_goal"])
+            cg = o.meta["clear_goal"]
+            base = [h for _, h in solve.prune_defs(o.hyps, cg)]
+            base = solve.cone_of_influence(base, cg)
+            smt["clear"] = solve.to_smt2(base, cg)
+            try:
+                lh, lg = solve.linear_abstraction(base, cg)
+                smt["clearlin"] = solve.to_smt2(lh, lg)
+            except Exception:
+                pass
         use = o.meta.get("use")
         if use is not None:
             sel = [h for n, h in o.hyps if any(n == u or n.startswith(u) for u in use)]
